@@ -228,8 +228,9 @@ namespace RuleLocal {
             case erule::pwc:
                 return 1.0 / (double) Maths::int3log3(point);
             case erule::localp:
-            case erule::semilocalp:
                 return (point == 0) ? 1.0 : 1.0 / ((double) Maths::int2log2(point - 1));
+            case erule::semilocalp: // points 1 and 2 carry the global quadratics x (x -/+ 1) / 2 supported on the entire domain
+                return (point == 0) ? 1.0 : (point <= 2) ? 2.0 : 1.0 / ((double) Maths::int2log2(point - 1));
             case erule::localp0:
                 return 1.0 / ((double) Maths::int2log2(point + 1));
             default: // case erule::localpb:
